@@ -12,7 +12,11 @@ def engine_prop(test, quick=800, thorough=60000):
             "parts": [{"name": "engine", "test": test, "quick_checks": quick, "thorough_checks": thorough, "thorough_shards": 16}]}
 
 
+PURE_ASSUMPTIONS = ["the reference evaluator/model in harness/refmodel is an independent reading of the property statement; inputs come from the stated generator grammar only"]
+
 PROPS = {
+    "C17": {"level": "exploration", "assumptions": PURE_ASSUMPTIONS,
+            "parts": [{"name": "probing", "test": "TestC17", "quick_checks": 20000, "thorough_checks": 2000000, "thorough_shards": 16}]},
     "C04": engine_prop("TestC04"),
     "C05": engine_prop("TestC05"),
     "C06": engine_prop("TestC06"),
